@@ -2,7 +2,7 @@
 (* The environment of xsync.Group as the bubble harness drives it (C17): up to NF functions are registered through
    Do / Periodic / Trigger / PeriodicOrTrigger (interval 10 ms, no jitter; a function either holds until the harness
    releases it - ignoring its context - or returns at once), trigger functions are called, fake time advances,
-   holding functions are released, Stop is called, the parent context is cancelled, StopAndWait is called (once;
+   holding functions are released, Stop is called, the parent context is cancelled, StopAndWait is called (up to twice, the second call possibly while the first still waits;
    the run goes on afterwards: late registrations and triggers must have no effect). Every behaviour up to MaxLen
    steps is one schedule. *)
 EXTENDS Integers, Sequences, FiniteSets, TLC, Json
@@ -12,13 +12,13 @@ vars == <<kinds, sw, len, op>>
 Kinds == {"do", "per", "trig", "ptrig"}
 NK == Len(kinds)
 R(a, k, kind, hold, d) == op' = [a |-> a, k |-> k, kind |-> kind, iv |-> 10, jit |-> 0, d |-> d, hold |-> hold] /\ len' = len + 1
-Init == kinds = <<>> /\ sw = FALSE /\ len = 0 /\ op = [a |-> "init", k |-> 0, kind |-> "", iv |-> 0, jit |-> 0, d |-> 0, hold |-> FALSE]
+Init == kinds = <<>> /\ sw = 0 /\ len = 0 /\ op = [a |-> "init", k |-> 0, kind |-> "", iv |-> 0, jit |-> 0, d |-> 0, hold |-> FALSE]
 Reg(kind, hold) == NK < NF /\ kinds' = Append(kinds, kind) /\ UNCHANGED sw /\ R("reg", NK + 1, kind, hold, 0)
 Fire(k) == k \in 1..NK /\ kinds[k] \in {"trig", "ptrig"} /\ UNCHANGED <<kinds, sw>> /\ R("fire", k, "", FALSE, 0)
 Adv(d) == UNCHANGED <<kinds, sw>> /\ R("adv", 0, "", FALSE, d)
 Rel(k) == k \in 1..NK /\ UNCHANGED <<kinds, sw>> /\ R("rel", k, "", FALSE, 0)
 Stop == UNCHANGED <<kinds, sw>> /\ \E a \in {"stop", "cancelparent"} : R(a, 0, "", FALSE, 0)
-StopWait == ~sw /\ sw' = TRUE /\ UNCHANGED kinds /\ R("stopwait", 0, "", FALSE, 0)
+StopWait == sw < 2 /\ sw' = sw + 1 /\ UNCHANGED kinds /\ R("stopwait", 0, "", FALSE, 0)
 Next == /\ len < MaxLen
         /\ \/ \E kind \in Kinds, hold \in BOOLEAN : Reg(kind, hold)
            \/ \E k \in 1..NF : Fire(k) \/ Rel(k)
